@@ -89,6 +89,7 @@ type SyncOpts struct {
 	Setup                                 func(conn *hstream.Conn, cancelS, cancelR context.CancelFunc) // extra fault wiring
 	SetupCallOnly                         func(conn *hstream.Conn, cancelS, cancelR context.CancelFunc)
 	Unpriv                                bool          // run both calls without CAP_DAC_OVERRIDE
+	Unreadable                            []string      // source directories that cannot be listed while the calls run
 	SumDelay                              time.Duration // the content hasher finalises this slowly
 	HasherErrAt, NotifyErrAt, FilterErrAt int           // 1-based call index, 0 = never
 	Gate                                  func(ep, op string, k int)
@@ -317,6 +318,21 @@ func RunSync(caseNo int, srcDir, dstDir string, o SyncOpts) (*SyncResult, error)
 		}
 		defer setDacOverride(true)
 	}
+	if len(o.Unreadable) > 0 {
+		// directories the sender may not list: mode 0000 and neither CAP_DAC_OVERRIDE nor CAP_DAC_READ_SEARCH while the calls run
+		for _, u := range o.Unreadable {
+			os.Chmod(filepath.Join(srcDir, u), 0)
+		}
+		if err := setReadCaps(false); err != nil {
+			return nil, errUnprivUnsupported
+		}
+		defer func() {
+			setReadCaps(true)
+			for _, u := range o.Unreadable {
+				os.Chmod(filepath.Join(srcDir, u), 0755)
+			}
+		}()
+	}
 	sDone, rDone := make(chan struct{}), make(chan struct{})
 	go func() {
 		defer close(sDone)
@@ -443,6 +459,9 @@ func RunSync(caseNo int, srcDir, dstDir string, o SyncOpts) (*SyncResult, error)
 	}
 	if o.Unpriv {
 		setDacOverride(true)
+	}
+	if len(o.Unreadable) > 0 {
+		setReadCaps(true)
 	}
 	// a destination directory that is no longer a directory (a hostile or broken transfer replaced the root itself):
 	// an observation for the monitor, not a driver failure
